@@ -875,6 +875,16 @@ nb_op(World &w, Node &n, int epi, int dir)
 		cls_b = cls_c = "msgq_resize_stale_fd"; // nni_msgq_resize does not refresh the pollables
 	else if (n.h_fd_busy)
 		cls_b = cls_c = "pollable_getfd_race"; // descriptor created while raise/clear ran concurrently
+	// The premise of (b), (c) and (e) is "the library is quiescent" between the poll and the call.  sim_quiesce
+	// promises that nothing happens within its horizon (3 ms) - unless the calling thread itself is stalled for
+	// longer than that inside the call (injected stalls are up to 20 ms): timers and segments that were due
+	// later than the horizon then do fire "during" the call.  Seen once in 260 000 runs of a thorough pass with base
+	// seed 4242 (a redialed connection came up inside the stalled send; replay kept in open/).  Nothing is judged then.
+	if (s1 != s0) {
+		sim_probe("c15_stalled_inside_call");
+		readable = -1;
+		must     = false;
+	}
 	// (b) no busy loop
 	if (readable == 1 && rv == NNG_EAGAIN)
 		VIOL(cls_b,
